@@ -111,7 +111,10 @@ def handleSave (cmd : String) (args : List SExp) : String :=
           let w := descWFB ⟨p.difi, p.ivfc, p.dpfs, p.master⟩ p.descSize
           let r := reopenLayoutB c p.index p && regularB c
           "p" ++ toString p.index ++ ":" ++ (if g then "g" else "-") ++ (if lay then "l" else "-") ++ (if d then "d" else "-") ++
-            (if t then "t" else "-") ++ (if w then "w" else "-") ++ (if r then "r" else "-"))
+            (if t then "t" else "-") ++ (if w then "w" else "-") ++ (if r then "r" else "-") ++
+            -- fully verifying tree (hypothesis of the same-session theorems C18_session*): many generated images have
+            -- uninitialised blocks on purpose, so this one is reported separately
+            (if allValidB Prim.sha256 p.tree p.master (p.P c.F) then "+v" else "+-"))
     | _, _ => "bad-args"
   | "cmac", [k, m] =>
     match k.bytes?, m.bytes? with
